@@ -210,7 +210,7 @@ func c19Concurrent(r *core.Run, idx int, rng *rand.Rand) {
 			for k := 0; k < 4000; k++ {
 				got := issuerOf(rq)
 				checked.Add(1)
-				if got != want {
+				if foldHost(got) != foldHost(want) {
 					mu.Lock()
 					if firstBad == "" {
 						firstBad = fmt.Sprintf("a request for host %s got the issuer %q (expected %q) while requests for other hosts were served", host, got, want)
@@ -220,7 +220,7 @@ func c19Concurrent(r *core.Run, idx int, rng *rand.Rand) {
 				}
 				if k%400 == 0 {
 					mv := fetchMeta(e, env.PathMetadata, rq.Host, rq.Header)
-					if wantE := strings.TrimSuffix(want, "/") + "/metadata"; mv.Err == "" && mv.EntityID != wantE {
+					if wantE := strings.TrimSuffix(want, "/") + "/metadata"; mv.Err == "" && foldHost(mv.EntityID) != foldHost(wantE) {
 						mu.Lock()
 						if firstBad == "" {
 							firstBad = fmt.Sprintf("the metadata served for host %s has entityID %q (expected %q)", host, mv.EntityID, wantE)
@@ -331,11 +331,11 @@ func c19Derived(r *core.Run, idx int, rng *rand.Rand) {
 		if wellFormed {
 			want := scheme + expected + wantPath
 			wantEntity := strings.TrimSuffix(want, "/") + "/metadata"
-			if mv.EntityID != wantEntity {
+			if foldHost(mv.EntityID) != foldHost(wantEntity) { // how the host's letters are cased is not judged
 				viol("derived_issuer", fmt.Sprintf("entityID %q, expected %q (first forwarded host / request host)", mv.EntityID, wantEntity))
 			}
 			for _, ep := range append(append(append([]endpoint{}, mv.SSO...), mv.SLO...), mv.Attr...) {
-				if !strings.HasPrefix(ep.Location, strings.TrimSuffix(want, "/")+"/") {
+				if !strings.HasPrefix(foldHost(ep.Location), foldHost(strings.TrimSuffix(want, "/")+"/")) {
 					viol("derived_endpoint", fmt.Sprintf("Location %q does not start with the derived issuer %q", ep.Location, want))
 				}
 			}
@@ -425,7 +425,7 @@ func c19SharedFactory(r *core.Run, idx int, rng *rand.Rand) {
 			r.Violate(core.Violation{Clause: "metadata_unavailable", Class: "shared_factory", Reason: mv.Err, Workload: wl, Index: idx})
 			return
 		}
-		if mv.EntityID != want {
+		if foldHost(mv.EntityID) != foldHost(want) {
 			r.Violate(core.Violation{Clause: "derived_issuer_shared_state", Class: fmt.Sprintf("shared_factory|kind=%d", kind), Reason: fmt.Sprintf("provider %d (insecure=%v) built from a shared factory value serves entityID %q, expected %q; flags of the %d providers: %v", i, insecure[i], mv.EntityID, want, n, insecure), Workload: wl, Index: idx, Case: map[string]any{"path": path, "insecure_flags": insecure, "request_host": reqHost, "headers": hdr}, Observed: mv.Call.Describe()})
 			return
 		}
